@@ -2,6 +2,7 @@ package props
 
 import (
 	"regexp"
+	"sort"
 	"strings"
 	"sync/atomic"
 
@@ -260,6 +261,32 @@ func checkC04(c *Case, r *Rec) error {
 
 var rewrittenAttrKeys = map[string]bool{"href": true, "cite": true, "src": true, "rel": true, "target": true, "crossorigin": true, "sandbox": true}
 
+// sameModuloAttrOrder: identical token streams except for the order of attributes inside tags.
+func sameModuloAttrOrder(a, b string) bool {
+	ta, tb := tokenize(a), tokenize(b)
+	if len(ta) != len(tb) {
+		return false
+	}
+	for i := range ta {
+		if ta[i].Type != tb[i].Type || ta[i].Name != tb[i].Name || len(ta[i].Attr) != len(tb[i].Attr) {
+			return false
+		}
+		x, y := []string{}, []string{}
+		for j := range ta[i].Attr {
+			x = append(x, ta[i].Attr[j].Key+"\x00"+ta[i].Attr[j].Val)
+			y = append(y, tb[i].Attr[j].Key+"\x00"+tb[i].Attr[j].Val)
+		}
+		sort.Strings(x)
+		sort.Strings(y)
+		for j := range x {
+			if x[j] != y[j] {
+				return false
+			}
+		}
+	}
+	return true
+}
+
 func inC20Class(m *Model) bool {
 	if allowsRawText(m) || m.comments || m.rewriter >= 0 {
 		return false
@@ -320,7 +347,13 @@ func genC20(t *rapid.T) *Case {
 	if c.Spec.Base != "Strict" && rapid.IntRange(0, 4).Draw(t, "linkFocus") == 0 {
 		// link-focused: rel/href/target allowed without patterns, some link options, hostile rel values
 		if c.Spec.Base == "New" {
-			c.Spec.Ops = append(c.Spec.Ops, Op{Kind: "AllowAttrs", Attrs: []string{"href", "rel", "target", "id"}, Scope: "els", Names: []string{"a", "area", "link"}, ValRe: -1},
+			attrs := []string{"href"}
+			for _, a := range []string{"rel", "target", "id"} {
+				if rapid.IntRange(0, 2).Draw(t, "allow_"+a) != 0 {
+					attrs = append(attrs, a)
+				}
+			}
+			c.Spec.Ops = append(c.Spec.Ops, Op{Kind: "AllowAttrs", Attrs: attrs, Scope: "els", Names: []string{"a", "area", "link"}, ValRe: -1},
 				Op{Kind: "AllowStandardURLs", ValRe: -1})
 			for _, k := range []string{"RequireNoReferrerOnLinks", "AddTargetBlankToFullyQualifiedLinks", "RequireNoFollowOnFullyQualifiedLinks"} {
 				if rapid.Bool().Draw(t, k) {
@@ -381,6 +414,12 @@ func checkC20(c *Case, r *Rec) error {
 		}
 	}
 	twice := p.Sanitize(once)
+	if twice != once && c.Kind != "strict-replay" && sameModuloAttrOrder(once, twice) && knownClassEnabled("C20", "attribute_order_only") {
+		// known finding D23: rel/target added by the sanitiser come out in a different order on the
+		// second pass; nothing but the order of attributes inside start tags differs
+		r.Excluded("attribute_order_only")
+		return nil
+	}
 	if twice != once {
 		return violation(twice, "C20: Sanitize(Sanitize(x)) differs from Sanitize(x): first pass %s, second pass %s", q(trunc(once, 300)), q(trunc(twice, 300)))
 	}
